@@ -9,6 +9,8 @@ import (
 
 	abci "github.com/cometbft/cometbft/abci/types"
 	sdk "github.com/cosmos/cosmos-sdk/types"
+	"github.com/cosmos/cosmos-sdk/x/params"
+	paramproposal "github.com/cosmos/cosmos-sdk/x/params/types/proposal"
 
 	"github.com/comdex-official/comdex/app/wasm/bindings"
 	"github.com/comdex-official/comdex/x/auction"
@@ -439,6 +441,22 @@ func (f *Fix) ApplyControls(e *sim.Env, app uint64, breaker bool, esm string) er
 		}
 	}
 	return nil
+}
+
+// SetAdminState puts the esm admin parameter into the given state by executing a parameter-change proposal.
+func (f *Fix) SetAdminState(e *sim.Env, adm string) error {
+	var val string
+	switch adm {
+	case "configured":
+		return nil
+	case "rotated":
+		val = fmt.Sprintf("[%q]", sim.Addr("newadmin").String())
+	case "empty":
+		val = "[]"
+	}
+	h := params.NewParamChangeProposalHandler(e.App.ParamsKeeper)
+	return h(e.Ctx, &paramproposal.ParameterChangeProposal{Title: "esm admins", Description: "change the esm admin list",
+		Changes: []paramproposal.ParamChange{{Subspace: esmtypes.ModuleName, Key: string(esmtypes.KeyAdmin), Value: val}}})
 }
 
 // ---------------------------------------------------------------------------------------------------
